@@ -545,7 +545,7 @@ def _run(chk):
     # lowered adaptive limit, memory >= 1; every labelling is judged by C12's monitor (Model/Adaptive.acheck_run)
     from props import c12
     aterms, ametas = [], []
-    for k in range(36 if chk.tier == 'quick' else 400):
+    for k in range(110 if chk.tier == 'quick' else 600):
         c = c12.gen(rng, chk.tier)
         c['memory'] = rng.choice([1, 1, 2])
         c.pop('plain_limit', None)
